@@ -3,6 +3,7 @@ import FontVerif.Model.HandAat
 import FontVerif.Drv.C01Iter
 namespace FontVerif.Drv.C01HandAat
 open FontVerif FontVerif.HandRead FontVerif.HandAat
+open FontVerif.ReadIter (Out run items trapped)
 
 def errStr : AErr → String
   | .oob => "eO"
@@ -95,6 +96,73 @@ def handle (cmd : String) (args : List String) : Option String :=
             (ltagIndexFor d n t))
           some s!"{xs.length} {h} | {joinStrs ixs}"
     | _, _ => none
+  | "ha.cid", [a, b, c, e] =>
+    match a.toNat?, b.toNat?, c.toNat?, e.toNat? with
+    | some a, some b, some c, some e =>
+      some (match compatFromU32s [a, b, c, e] with | some bs => toHex bs | none => "trap")
+    | _, _, _, _ => none
+  | "ha.u8or16", [mei, hex] =>
+    match mei.toNat?, parseHex? hex with
+    | some mei, some d =>
+      some s!"{u8or16Size mei} {match u8or16Read d mei with | some v => toString v | none => "eO"}"
+    | _, _ => none
+  | "ha.fm", mei :: hex :: "|" :: args =>
+    match mei.toNat?, parseHex? hex, natsOrEmpty args with
+    | some mei, some d, some args =>
+      match featureMapRead d mei with
+      | .error e => some (errStr e)
+      | .ok (n, _) => some s!"{n} | {joinStrs (args.map (fun a => rStr toString (entryRecordsSize d mei a)))}"
+    | _, _, _ => none
+  | "ha.f1", hex :: "|" :: ixs =>
+    match parseHex? hex, natsOrEmpty ixs with
+    | some d, some ixs =>
+      match f1Read d with
+      | none => some "err"
+      | some h =>
+        let ec := match f1EntryCount h with | some v => toString v | none => "trap"
+        let gm := match f1GlyphMap d h with
+          | .ok g => s!"{g.first}:{g.data.length}"
+          | .error e => errStr e
+        let it := match gidTrace d h with
+          | none => "fuel"
+          | some evs =>
+            if trapped evs then "trap" else
+            let xs := items evs
+            let last := match xs.getLast? with | some p => s!"{p.1}:{p.2}" | none => "-"
+            s!"{xs.length} {Drv.C01Iter.fnv (xs.flatMap (fun (p : Nat × Nat) => [p.1, p.2]))} {last}"
+        let bits := String.ofList (ixs.map (fun i => if f1IsEntryApplied d h i then '1' else '0'))
+        let fm := match f1FeatureMap d h with
+          | none => "none"
+          | some (.error e) => errStr e
+          | some (.ok sub) =>
+            ",".intercalate ([h.maxEntry, 0, 255, 256, 65535].map (fun a => rStr toString (entryRecordsSize sub h.maxEntry a)))
+        some s!"{ec} {if f1UriOk d h then 1 else 0} | {gm} | {it} | {if bits.isEmpty then "-" else bits} | {fm}"
+    | _, _ => none
+  | "ha.gp", wide :: hex :: "|" :: tis =>
+    match wide.toNat?, parseHex? hex, natsOrEmpty tis with
+    | some wide, some d, some tis =>
+      if wide > 1 then none else
+      match gpRead d (wide = 1) with
+      | none => some "err"
+      | some h =>
+        some (joinStrs (tis.map (fun ti =>
+          match gdTrace d h ti with
+          | none => "fuel"
+          | some evs =>
+            if trapped evs then "trap" else
+            let xs := items evs
+            let enc := fun (x : Except AErr (Nat × Nat × Nat)) => match x with
+              | .ok (g, st, ln) => [1, g, st, ln]
+              | .error .oob => [2, 1]
+              | .error .null => [2, 2]
+              | .error .malformed => [2, 3]
+              | .error (.badFormat n) => [2, 4, n]
+            let last := match xs.getLast? with
+              | some (.ok (g, st, ln)) => s!"{g}.{st}.{ln}"
+              | some (.error e) => errStr e
+              | none => "-"
+            s!"{xs.length}:{Drv.C01Iter.fnv (xs.flatMap enc)}:{last}")))
+    | _, _, _ => none
   | _, _ => none
 
 end FontVerif.Drv.C01HandAat
